@@ -649,8 +649,63 @@ fn testdir_family(_case: &Value) -> Value {
     let still2 = !d2.is_empty() && std::path::Path::new(&d2[0]).is_dir();
     drop(r2);
     let gone2 = !d2.is_empty() && !std::path::Path::new(&d2[0]).exists();
+    // the library's run_parallel: one runner per file, each with its own test directory
+    let par = parallel_testdirs();
     json!({"ok": ok1 && ok2, "same_within_runner": same1 && same2, "distinct_between_runners": distinct,
-           "exist_while_alive": exist_alive, "removed_on_drop": gone1 && gone2, "other_survives_drop": still2})
+           "exist_while_alive": exist_alive, "removed_on_drop": gone1 && gone2, "other_survives_drop": still2,
+           "parallel_runners_distinct": par.0, "parallel_dirs_removed": par.1})
+}
+
+static PAR_SHARED: std::sync::OnceLock<Arc<Mutex<Shared>>> = std::sync::OnceLock::new();
+
+fn par_builder(_host: String, db: String) -> std::future::Ready<MockDb<DefaultColumnType>> {
+    let shared = PAR_SHARED.get().unwrap().clone();
+    let id = {
+        let mut sh = shared.lock().unwrap();
+        let id = sh.next_conn;
+        sh.next_conn += 1;
+        sh.events.push(json!(["connect-db", id, db]));
+        id
+    };
+    std::future::ready(MockDb::new_raw(shared, id))
+}
+
+fn parallel_testdirs() -> (bool, bool) {
+    let tree = Tree::create(&json!([
+        ["p/a.slt", "file", "control substitution on\n\nstatement ok\nP $__TEST_DIR__\n\nstatement ok\nQ $__TEST_DIR__\n"],
+        ["p/b.slt", "file", "control substitution on\n\nstatement ok\nP $__TEST_DIR__\n"],
+        ["p/c.slt", "file", "control substitution on\n\nstatement ok\nP $__TEST_DIR__\n"]
+    ]));
+    let shared = PAR_SHARED.get_or_init(|| Arc::new(Mutex::new(Shared::default()))).clone();
+    shared.lock().unwrap().events.clear();
+    set_current(Some(shared.clone()));
+    let mut runner = Runner::new(MockMaker::<DefaultColumnType>::new(shared.clone()));
+    let glob = format!("{}p/*.slt", tree.prefix());
+    let res = catch_unwind(AssertUnwindSafe(|| runner.run_parallel(&glob, vec!["h".to_string()], par_builder, 2)));
+    set_current(None);
+    let mut dirs: Vec<(usize, String)> = vec![];
+    for e in shared.lock().unwrap().events.iter() {
+        let a = e.as_array().unwrap();
+        if a[0] == "sql" {
+            let t = a[2].as_str().unwrap();
+            if t.starts_with("P ") || t.starts_with("Q ") {
+                dirs.push((a[1].as_u64().unwrap() as usize, t[2..].to_string()));
+            }
+        }
+    }
+    let mut per_conn: std::collections::BTreeMap<usize, Vec<String>> = Default::default();
+    for (id, d) in &dirs {
+        per_conn.entry(*id).or_default().push(d.clone());
+    }
+    let stable = per_conn.values().all(|v| v.iter().all(|d| d == &v[0]));
+    let firsts: Vec<&String> = per_conn.values().map(|v| &v[0]).collect();
+    let mut uniq = firsts.clone();
+    uniq.sort();
+    uniq.dedup();
+    let distinct = res.is_ok() && stable && per_conn.len() == 3 && uniq.len() == 3;
+    drop(runner);
+    let removed = !dirs.is_empty() && dirs.iter().all(|(_, d)| !std::path::Path::new(d).exists());
+    (distinct, removed)
 }
 
 fn dispatch(family: &str, case: &Value) -> Value {
